@@ -220,6 +220,20 @@ CHECKS = {
         "ceil(p%) bulks, conflicting ids previously emitted by the same reader.",
         "Trusted: the reference reader (plain file read). 10^12-document files only at the arithmetic layers.",
     ),
+    "C10": (
+        "exploration",
+        "bounded-exhaustive generation of track models from a grammar, each written in three spellings (plain JSON, Jinja parameters, "
+        "rally.collect parts incl. nested) and read by the real TrackFileReader, against an independent reference; single-rule violations "
+        "must be rejected",
+        "DESIGN.md §4 C10",
+        "~1000 (thorough ~3500) single-task models over every combination of loop keys, clients, throughput forms, tag forms, name, "
+        "schedule, meta and operation forms; parallel elements (defaults x clients x completed-by x child overrides); challenge forms and "
+        "selection; corpora/document-set variants with indices xor data streams; 28 single-rule violations on 4 base models (duplicate names, "
+        "default challenges, mixing iterations/time periods, ramp-up rules, completed-by, schema violations, versions, unused/reserved "
+        "parameters). Every public attribute of the loaded Track/Challenge/Task/Parallel/Operation/DocumentCorpus/Documents must equal the "
+        "reference; invalid tracks must raise a Rally error.",
+        "Trusted: the reference expect(model) (90 lines). Index/template bodies and track plugins are not generated.",
+    ),
 }
 
 NOT_YET = {}
